@@ -69,6 +69,7 @@ type Case struct {
 	Sps, Pps, Vps []byte
 	Elems         []Elem
 	Order         []int  // nil = every packet in order
+	Subs          []Sub  // corruption in place: payload of the packet at Pos replaced
 	Mode          string // exact | contain
 	Strict        bool   // contain: additionally every frame must be a unit of the stream
 	Skip          int    // the first Skip elements are a parameter-set prefix, not judged
@@ -76,6 +77,12 @@ type Case struct {
 	Hdr           int    // RTP header variant seed (CSRC / extension / padding)
 	Tags          []string
 	RawS          string // corpus cases: the s= token verbatim
+}
+
+// Sub replaces the payload of the packet at position Pos of the sender's packet list
+type Sub struct {
+	Pos  int
+	Data []byte
 }
 
 func (c *Case) Line(op string, ok, ko [][]byte, extra string) string {
@@ -108,6 +115,13 @@ func (c *Case) Line(op string, ok, ko [][]byte, extra string) string {
 			o = "-"
 		}
 		b.WriteString(" order=" + o)
+	}
+	if len(c.Subs) > 0 {
+		ss := make([]string, len(c.Subs))
+		for i, x := range c.Subs {
+			ss[i] = fmt.Sprintf("%d:%s", x.Pos, Hx(x.Data))
+		}
+		b.WriteString(" sub=" + strings.Join(ss, "+"))
 	}
 	if c.Mode != "" {
 		b.WriteString(" mode=" + c.Mode)
